@@ -1580,7 +1580,13 @@ func TestCheck(t *testing.T) {
 		"verdict, scripted response-side verdict); the sequential phase enumerates the cross product, the concurrent phase draws " +
 		"32x200 cases from the seed.  Non-trivial = every class except (attributed, query log on, IP log on, no verdict), i.e. every " +
 		"class where a gate must suppress something or the entry must carry a verdict.  Part 2: one case = one entry written by one of " +
-		"32 concurrent writers to the real querylog.FileSystem; class = (request result kind, response result kind, IP set, rule-text class).")
+		"32 concurrent writers to the real querylog.FileSystem; class = (request result kind, response result kind, IP set, rule-text class).  " +
+		"Part 3: one case = one request through the real stack with the REAL filterstorage.Default; every domain is owned by one source " +
+		"(one of 6 blocked services, a block / allow rule of one of 4 rule lists, a custom rule, nothing); class = (owner class incl. whether " +
+		"the owning service is the only / first / a later one of the profile's blocked services or not enabled, number of enabled services, IP log); " +
+		"non-trivial = every class but 'unowned'.  Part 4: one case = one request of a profile whose flags went through a real profiledb " +
+		"full sync -> file cache -> new instance (restart); class = (before/after restart, QueryLogEnabled, IPLogEnabled); non-trivial = after " +
+		"the restart and at least one flag off.")
 	r.Assume("The scripted filter storage, access manager, profile access, rate limiters, GeoIP and profile database are harness fakes; " +
 		"everything between the handler boundary and those interfaces is the repository's code (dnssvc.NewHandlers).")
 	r.Assume("Request names avoid the special domains handled before the main middleware (DDR, canary, safe-browsing TXT, CHAOS debug).")
@@ -1610,6 +1616,23 @@ func TestCheck(t *testing.T) {
 			}
 		}()
 		part2(t, r)
+	}()
+
+	func() {
+		defer func() {
+			if p := recover(); p != nil {
+				r.Inconclusive(fmt.Sprintf("harness panic in part 3: %v", p))
+			}
+		}()
+		part3RealFilter(t, r)
+	}()
+	func() {
+		defer func() {
+			if p := recover(); p != nil {
+				r.Inconclusive(fmt.Sprintf("harness panic in part 4: %v", p))
+			}
+		}()
+		part4Restart(t, r)
 	}()
 
 	if n := r.BucketGet("p1.drop_class_answered"); n > 0 {
@@ -1642,6 +1665,22 @@ func TestCheck(t *testing.T) {
 	for _, p := range []agd.Protocol{agd.ProtoDNS, agd.ProtoDoH, agd.ProtoDoQ, agd.ProtoDoT, agd.ProtoDNSCrypt} {
 		r.Require(fmt.Sprintf("p1.proto.%d", p), 50)
 	}
+	// Part 3: the monitor must have seen entries whose rule comes from the
+	// real filters, in particular from a blocked service that is not the first
+	// one of its profile.
+	for _, cl := range []string{"svc-later-of-several", "svc-first-of-several", "svc-only", "svc-not-enabled", "list-block",
+		"list-block-not-enabled", "list-allow", "custom", "custom-of-other-profile", "unowned"} {
+		r.Require("p3."+cl, 12)
+	}
+	// Part 4: entries and suppressions seen before and after the restart.
+	for _, ph := range []string{"before-restart", "after-restart"} {
+		r.Require("p4."+ph+".ip_suppressed", 12)
+		r.Require("p4."+ph+".ip_logged", 12)
+		r.Require("p4."+ph+".qlog_suppressed", 24)
+	}
+	r.Require("p4.post_restart_sync_calls", 1)
+	r.Require("p3.svc-later-of-several", 60)
+	r.Require("p3.lines_checked", 400)
 	r.Require("e2e.lines_matched", 800)
 	r.Require("e2e.lines_attributed_to_case", 800)
 	r.Require("fs.lines_matched", int64(workers*200*3))
